@@ -752,10 +752,8 @@ The rewrite is `RbModel.Rewrite.forToWhile`; it is exercised at every FOR site b
 implementation before/after, and the reference semantics before/after through the driver).  Proved
 here: the sign a constant step is given once, before the loop, is the sign the FOR header computes
 (`constSign_stepSign`), and the test of the WHILE spelling is the test of a FOR round
-(`evalCond_countTest`).  The equivalence itself (`ForEqWhile`) is stated, not proved: besides the
-context lemma it needs a frame lemma (a statement leaves variables it does not mention unchanged)
-and type preservation of `Ref.exec` (the counter keeps a value of its declared type), see the side
-conditions below. -/
+(`evalCond_countTest`).  The equivalence itself is `for_eq_while` in `Thm/C02For.lean` (it needs the
+frame lemma proved there and type preservation of `Ref.exec` from `Thm/C01SimRead.lean`). -/
 
 /-- the test `x <= zl` / `x >= zl` of the WHILE spelling is the comparison a FOR round makes with
 its limit, when `zl` holds the limit -/
@@ -797,23 +795,5 @@ theorem constSign_stepSign {v : Val} {up : Bool} (p : Pos) (h : constSign v = so
   | sgl q => simp [constSign] at h
   | dbl q => simp [constSign] at h
   | str s => simp [constSign] at h
-
-/-- **FOR ≡ WHILE** — the statement (not proved; listed in `unproved`).  Side conditions: the
-temporaries `zl`, `zs` are distinct and do not occur in the FOR statement; `tres` is the linter's type
-of `counter + step`; the counter is well typed (its initial value and the value the body leaves in it
-have the counter's declared type, the step has its static type); a step computed at run time is not
-zero (a zero step is error 258 in FOR and has no WHILE spelling). -/
-def ForEqWhile : Prop :=
-  ∀ (x : Nat) (t : Ty) (lo hi : Ast.Expr) (step : Option Ast.Expr) (body : Stmt) (p : Pos)
-    (zl zs : Nat) (tres : Ty) (st' : Stmt),
-    forToWhile zl zs tres (.forLoop x t lo hi step body p) = some st' →
-    zl ≠ zs →
-    usesS [zl, zs] (.forLoop x t lo hi step body p) = false →
-    Gen.NumTables.binType .plus t (stepTy step) = some tres →
-    (∀ env l, evalTo env lo t = .ok l → l.tag = t) →
-    (∀ fuel s s', (s.env.getD x (zeroOf t)).tag = t → exec fuel body s = (s', .normal) →
-      (s'.env.getD x (zeroOf t)).tag = t) →
-    (∀ se, step = some se → ∀ env v, eval env se = .ok v → v.tag = se.ty ∧ stepSign p v ≠ .ok .zero) →
-    Equiv [zl, zs] (.forLoop x t lo hi step body p) st'
 
 end RbThm.C02
